@@ -75,7 +75,12 @@ def case_from_tlc(obj, h, g):
     else:
         src = "model" if rnd.randrange(2) == 0 else "java"
     via = "cli" if rnd.randrange(16) == 0 else "api"
-    return {"case": "tlc-%s-%s" % (part, h), "input": {"src": src, "via": via, "classes": inp["classes"]}}
+    c = {"case": "tlc-%s-%s" % (part, h), "input": {"src": src, "via": via, "classes": inp["classes"]}}
+    m = obj.get("machine")
+    if isinstance(m, dict):
+        m["part"] = part
+        c["machine"] = m
+    return c
 
 
 def nontrivial(rec):
@@ -87,10 +92,42 @@ def nontrivial(rec):
     return False
 
 
+def _machine_agrees(r):
+    """The Machine's own report against the real code's (informational: drift of the specification, never a verdict)."""
+    m, o = r["machine"], r["observed"]
+    part = m.get("part")
+    lst = lambda x: x if isinstance(x, list) else []
+    if o["panic"]:
+        return False
+    if part == "count":
+        return [list(x) for x in lst(m.get("rows"))] == [list(x) for x in o["count"]["rows"]]
+    if part == "eval":
+        e = o["eval"]
+        same = (m["classes"], m["methods"], m["statics"], m["utils"]) == (e["classes"], e["methods"], e["statics"], e["utils"])
+        if e["listed"]:
+            return same and sorted(lst(m.get("nullable"))) == sorted(e["nullable"])
+        return same and len(lst(m.get("nullable"))) == e["nullableCount"]
+    if part == "concept":
+        return sorted([list(x) for x in lst(m.get("rows"))]) == sorted([list(x) for x in o["concept"]["rows"]])
+    return True
+
+
 def extra_evidence(records):
+    agree = differ = 0
+    drift = []
+    for r in records:
+        if not isinstance(r.get("machine"), dict):
+            continue
+        if _machine_agrees(r):
+            agree += 1
+        else:
+            differ += 1
+            if len(drift) < 5:
+                drift.append(r["case"])
     n_cli = sum(1 for r in records if r["input"].get("via") == "cli")
     n_model = sum(1 for r in records if r["input"].get("src") == "model")
-    ev = {"cases_via_cli": n_cli, "cases_model_written_directly": n_model,
+    ev = {"machine_vs_code_same_report": agree, "machine_vs_code_different_report": differ, "DRIFT_examples": drift,
+          "cases_via_cli": n_cli, "cases_model_written_directly": n_model,
           "cases_through_java_sources": len(records) - n_model,
           "classes_rendered": sum(len(r["input"]["classes"]) for r in records),
           "members_rendered": sum(len(c["members"]) for r in records for c in r["input"]["classes"]),
